@@ -56,6 +56,9 @@ impl<'cmd> Parser<'cmd> {
 
         ok!(self.parse(matcher, raw_args, args_cursor).map_err(|err| {
             if self.cmd.is_ignore_errors_set() {
+                // an occurrence that was still being collected when the error was raised belongs to the
+                // command line: store it before the environment and the defaults are consulted
+                let _ = self.resolve_pending(matcher);
                 #[cfg(feature = "env")]
                 let _ = self.add_env(matcher);
                 let _ = self.add_defaults(matcher);
